@@ -183,7 +183,16 @@ func genCase(t *rapid.T, nodeFailure bool) Case {
 				c.Steps = append(c.Steps, sim.Step{Op: "pub2hold", C: ci, PID: pid, Topic: rapid.SampledFrom(topics).Draw(t, "topic"), Payload: fmt.Sprintf("p%d", payload), Retain: rapid.IntRange(0, 3).Draw(t, "retain2") == 0})
 			}
 		case x < 14:
-			c.Steps = append(c.Steps, sim.Step{Op: "close", C: ci})
+			switch rapid.IntRange(0, 5).Draw(t, "closeOrLinger") {
+			case 0:
+				// a subscriber that stops acknowledging: its open QoS 1/2 deliveries are sent again
+				// at every sweep and must carry the very same topic each time
+				c.Steps = append(c.Steps, sim.Step{Op: "noack", C: ci})
+			case 1, 2:
+				c.Steps = append(c.Steps, sim.Step{Op: "sweep"})
+			default:
+				c.Steps = append(c.Steps, sim.Step{Op: "close", C: ci})
+			}
 		case x < 15:
 			c.Steps = append(c.Steps, sim.Step{Op: "disconnect", C: ci})
 		default:
